@@ -628,6 +628,150 @@ pub fn check_tree(root: &T, acc: &mut Acc) {
     }
 }
 
+
+/// documents that are the result of a short API history rather than of plain construction: array / array-of-tables
+/// slots vacated through mutable indexing, and value objects that carry decor from a previous life (lifted out of a
+/// `key = value # comment` line, or decorated by hand) handed to the entry points that apply default formatting
+fn api_state_family(rep: &mut Report) {
+    let t0 = std::time::Instant::now();
+    let mut acc = Acc::default();
+    let ints = |v: &[i64]| T::Arr(v.iter().map(|i| T::Leaf(Leaf::I(*i))).collect());
+    let mut judge = |acc: &mut Acc, label: String, doc: &DocumentMut, want: T| {
+        acc.evals += 1;
+        acc.nontrivial(label.as_bytes());
+        let r = guarded(|| -> Result<(), String> {
+            let text = doc.to_string();
+            let Verdict::Valid { tree, .. } = ref_parse(&text) else {
+                let why = match ref_parse(&text) {
+                    Verdict::Invalid(r) => format!("{} at byte {}", r.rule, r.at),
+                    _ => "undecided".into(),
+                };
+                return Err(format!("printed text is not valid TOML ({}): {:?}", why, text));
+            };
+            let (mut got, mut w) = (String::new(), String::new());
+            canon_node(&tree, &mut got);
+            canon_t(&want, &mut w);
+            if got != w {
+                return Err(format!("printed text {:?} decodes to {} instead of {}", text, got, w));
+            }
+            let back = text.parse::<DocumentMut>().map_err(|e| format!("printed text {:?} rejected by the parser: {}", text, e.message()))?;
+            if back.to_string() != text {
+                return Err(format!("printed text is not a fixed point: {:?} -> {:?}", text, back.to_string()));
+            }
+            Ok(())
+        });
+        match r {
+            Ok(Ok(())) => {
+                acc.bump("api-state-round-trips");
+                acc.sample(|| label.clone());
+            }
+            Ok(Err(e)) => acc.viol("U-api-state", label, None, e),
+            Err(p) => acc.viol("U-api-state", label, None, format!("panic: {}", p)),
+        }
+    };
+    // (a) vacated slots
+    for n in 1..=4usize {
+        for mask in 1u32..(1 << n) {
+            let vals: Vec<i64> = (1..=n as i64).collect();
+            let left: Vec<i64> = (0..n).filter(|i| mask & (1 << i) == 0).map(|i| vals[i]).collect();
+            for parsed in [false, true] {
+                let mut doc = if parsed {
+                    format!("a = [{}]\nz = 0\n", vals.iter().map(|v| v.to_string()).collect::<Vec<_>>().join(", ")).parse::<DocumentMut>().unwrap()
+                } else {
+                    let mut d = DocumentMut::new();
+                    d["a"] = toml_edit::value(Array::from_iter(vals.iter().copied()));
+                    d["z"] = toml_edit::value(0);
+                    d
+                };
+                for i in 0..n {
+                    if mask & (1 << i) != 0 {
+                        let _ = std::mem::take(&mut doc["a"][i]);
+                    }
+                }
+                judge(&mut acc, format!("array of {} ({}), slots {:#b} vacated with mem::take(&mut doc[\"a\"][i])", n, if parsed { "parsed" } else { "built" }, mask), &doc, T::Tab(vec![("a".into(), ints(&left)), ("z".into(), T::Leaf(Leaf::I(0)))]));
+                // array of tables (not every element vacated: an element-less array of tables is the known finding)
+                if left.is_empty() {
+                    continue;
+                }
+                let mut doc = if parsed {
+                    vals.iter().map(|v| format!("[[t]]\nx = {}\n", v)).collect::<String>().parse::<DocumentMut>().unwrap()
+                } else {
+                    let mut d = DocumentMut::new();
+                    let mut a = ArrayOfTables::new();
+                    for v in &vals {
+                        let mut t = Table::new();
+                        t.insert("x", toml_edit::value(*v));
+                        a.push(t);
+                    }
+                    d.insert("t", Item::ArrayOfTables(a));
+                    d
+                };
+                for i in 0..n {
+                    if mask & (1 << i) != 0 {
+                        let _ = std::mem::take(&mut doc["t"][i]);
+                    }
+                }
+                let want = T::Tab(vec![("t".into(), T::Aot(left.iter().map(|v| vec![("x".to_string(), T::Leaf(Leaf::I(*v)))]).collect()))]);
+                judge(&mut acc, format!("array of tables of {} ({}), slots {:#b} vacated", n, if parsed { "parsed" } else { "built" }, mask), &doc, want.clone());
+                // ... and the same array of tables turned into an inline array afterwards
+                let mut d2 = doc.clone();
+                d2["t"].make_value();
+                let want_inline = T::Tab(vec![("t".into(), T::Arr(left.iter().map(|v| T::Inl(vec![("x".to_string(), T::Leaf(Leaf::I(*v)))])).collect()))]);
+                judge(&mut acc, format!("array of tables of {} ({}), slots {:#b} vacated, then make_value()", n, if parsed { "parsed" } else { "built" }, mask), &d2, want_inline);
+            }
+        }
+    }
+    // (b) value objects with a previous life
+    let sources: Vec<(&str, Box<dyn Fn() -> Value>)> = vec![
+        ("Value::from(7).decorated(\"  \", \" # note\")", Box::new(|| Value::from(7).decorated("  ", " # note"))),
+        ("lifted from `k = 7 # c`", Box::new(|| "k = 7 # c\n".parse::<DocumentMut>().unwrap().remove("k").unwrap().into_value().unwrap())),
+        ("lifted from `k = 7 # c` (no final newline)", Box::new(|| "k = 7 # c".parse::<DocumentMut>().unwrap().remove("k").unwrap().into_value().unwrap())),
+        ("taken out of `[ 1, 7 # c\\n ]`", Box::new(|| "[ 1, 7 # c\n ]".parse::<Value>().unwrap().as_array().unwrap().get(1).unwrap().clone())),
+    ];
+    for (sname, src) in &sources {
+        for start in [vec![], vec![1i64], vec![1, 2]] {
+            for entry in 0..4 {
+                let mut a = Array::from_iter(start.iter().copied());
+                let mut want = start.clone();
+                let ename = match entry {
+                    0 => {
+                        a.push(src());
+                        want.push(7);
+                        "Array::push"
+                    }
+                    1 => {
+                        a.insert(0, src());
+                        want.insert(0, 7);
+                        "Array::insert(0, ..)"
+                    }
+                    2 => {
+                        a.insert(start.len(), src());
+                        want.push(7);
+                        "Array::insert(len, ..)"
+                    }
+                    3 => {
+                        if start.is_empty() {
+                            continue;
+                        }
+                        a.replace(0, src());
+                        want[0] = 7;
+                        "Array::replace(0, ..)"
+                    }
+                    // (Array::extend and FromIterator are `push_formatted` in a loop: they keep the caller's decor by
+                    // design, like every *_formatted entry point, so what the decor contains is the caller's business)
+                    _ => continue,
+                };
+                let mut doc = DocumentMut::new();
+                doc["a"] = toml_edit::value(a);
+                doc["z"] = toml_edit::value(0);
+                judge(&mut acc, format!("{} with a value {} into an array of {}", ename, sname, start.len()), &doc, T::Tab(vec![("a".into(), ints(&want)), ("z".into(), T::Leaf(Leaf::I(0)))]));
+            }
+        }
+    }
+    let n = acc.evals;
+    rep.absorb("U-api-state", "arrays / arrays of tables of 1-4 elements (built and parsed) with every non-empty set of slots vacated through mutable indexing (+ make_value afterwards); values carrying decor from a previous life x the 4 entry points of Array documented to apply default formatting (push, insert at both ends, replace) x 3 start arrays", n, true, t0, acc);
+}
+
 pub fn c06(tier: Tier) -> i32 {
     let mut rep = Report::new(
         "C06",
@@ -743,6 +887,7 @@ pub fn c06(tier: Tier) -> i32 {
             .reduce(Acc::default, Acc::merge);
         rep.absorb("U-chain", &format!("every chain of <= {} nested containers (mixed array, array, inline table, table) around one leaf", depth), all.len() as u64, true, t0, acc);
     }
+    api_state_family(&mut rep);
     rep.finish()
 }
 
